@@ -223,6 +223,7 @@ type poolMon struct {
 	maxReady   atomic.Int32
 	samples    atomic.Int64
 	stopped    atomic.Bool
+	liveRefuted atomic.Bool // a bounded-liveness wait hit its cap in this case
 
 	vmu   sync.Mutex
 	viols map[string]string
@@ -508,6 +509,7 @@ func runCase(b *batch, idx int, spec caseSpec) *caseResult {
 	pm.pool.Start()
 	pm.log("start", -1, 0, 0)
 	ok := true
+	skipLiveness := false
 	for _, o := range spec.Ops {
 		if !ok {
 			break
@@ -546,12 +548,17 @@ func runCase(b *batch, idx int, spec caseSpec) *caseResult {
 				ok = false
 				break
 			}
+			if skipLiveness {
+				break
+			}
 			t0 := time.Now()
 			retired := pollUntil(liveCap, func() bool { w, _, _ := pm.pool.Counts(); return w == 0 })
 			w, rdy, _ := pm.pool.Counts()
 			pm.log("waitidle", -1, w, rdy)
 			if !retired {
 				pm.violate("idle-workers-not-retired", fmt.Sprintf("all connections finished, yet Counts().workers=%d ready=%d still after %v with MaxIdleWorkerDuration=%dms", w, rdy, liveCap, spec.IdleMs))
+				pm.liveRefuted.Store(true)
+				skipLiveness = true // one refuted wait per case is enough; do not spend 10 s on each further one
 			} else {
 				res.waitIdles++
 				if ms := float64(time.Since(t0).Microseconds()) / 1000; ms > res.idleRetireMs {
@@ -574,15 +581,20 @@ func runCase(b *batch, idx int, spec caseSpec) *caseResult {
 	// after Stop: the connections still being served finish later
 	releaseAll()
 	if ok && quiesce("after-stop") {
-		drained := pollUntil(liveCap, func() bool { w, rdy, _ := pm.pool.Counts(); return w == 0 && rdy == 0 })
+		cap := liveCap
+		if skipLiveness {
+			cap = time.Second // already refuted in this case; the final verdict keys stay the same class of defect
+		}
+		drained := pollUntil(cap, func() bool { w, rdy, _ := pm.pool.Counts(); return w == 0 && rdy == 0 })
 		w, rdy, ms := pm.pool.Counts()
 		pm.log("final-counts", -1, w, rdy)
 		if !drained {
+			pm.liveRefuted.Store(true)
 			if rdy != 0 {
-				pm.violate("ready-nonempty-after-stop", fmt.Sprintf("Counts().ready=%d still %v after Stop and after every WorkerFunc returned", rdy, liveCap))
+				pm.violate("ready-nonempty-after-stop", fmt.Sprintf("Counts().ready=%d still %v after Stop and after every WorkerFunc returned", rdy, cap))
 			}
 			if w != 0 {
-				pm.violate("workers-not-zero-after-stop", fmt.Sprintf("Counts().workers=%d still %v after Stop and after every WorkerFunc returned (ready=%d)", w, liveCap, rdy))
+				pm.violate("workers-not-zero-after-stop", fmt.Sprintf("Counts().workers=%d still %v after Stop and after every WorkerFunc returned (ready=%d)", w, cap, rdy))
 			}
 		}
 		if !ms {
@@ -731,6 +743,7 @@ func TestC13(t *testing.T) {
 			aborted = true
 			break
 		}
+		stuck := false
 		for k, res := range results {
 			if res == nil {
 				continue
@@ -763,6 +776,10 @@ func TestC13(t *testing.T) {
 			}
 			for _, s := range pm.incon {
 				r.Inconclusive(s)
+				stuck = true
+			}
+			if pm.liveRefuted.Load() {
+				stuck = true
 			}
 			if r.WantSample() && res.rejected > 0 && res.stopBusy > 0 {
 				r.Sample(map[string]any{"case": i, "spec": spec, "accepted": res.accepted, "rejected": res.rejected, "hijacked": res.hijacked, "busy_at_stop": res.stopBusy,
@@ -782,6 +799,7 @@ func TestC13(t *testing.T) {
 		}
 	}
 	r.Set("hook_hits", hits)
+	r.Set("run_cut_short", aborted)
 	r.Set("max_idle_retire_wait_ms", maxIdleRetire)
 	r.Set("peak_workers_sampled", peakWorkers)
 	r.Set("peak_ready_sampled", peakReady)
